@@ -183,7 +183,8 @@ class LanguageServerProtocol(JsonRPCProtocol, metaclass=LSPMeta):
     @lsp_method(types.SHUTDOWN)
     def lsp_shutdown(self, *args) -> None:
         """Request from client which asks server to shutdown."""
-        for future in self._request_futures.values():
+        # Cancelling a future may run its callbacks, which modify the table.
+        for future in list(self._request_futures.values()):
             future.cancel()
 
         self._shutdown = True
